@@ -270,43 +270,51 @@ Theorem C02_blackhole_closes_both : forall idle es sa sb da db a1 ta a2 b1 tb b2
   IdleTimer.iclosed (snd (IdleTimerProofs.run2 idle (sa, sb) es)) = true.
 Proof. exact IdleTimerProofs.blackhole_closes_both. Qed.
 
-(* ---- reader wake-up (ReceiveStream::{on_data, on_reset, poll_request}) ---- *)
+(* ---- reader wake-up (ReceiveStream::{on_data, on_reset, poll_request}), data in order or one
+   segment ahead of a gap ---- *)
+(* Step-level theorems over every state of the model (model/RxWake.v).  The history-level invariant
+   "a stored waiter implies the buffer is below the threshold and the window still admits data", which
+   was proved for the in-order model, has NOT been re-proved for the model with out-of-order
+   delivery (PARTIAL); the differential run and the judge cover histories. *)
 
-(* Every history of in-window, in-order STREAM data / FIN / RESET_STREAM / rx requests with any low and
-   high watermarks: whenever a reader is parked (waker stored, no wake delivered), the stream is still
-   Receiving, no reset has arrived, fewer bytes are buffered than min(its remaining low watermark, the
-   flow-control watermark w/2) (one byte suffices when that is 0) -- hence the flow-control window can
-   still admit data: no state with a parked reader, a peer blocked on the stream window and no wake. *)
-Theorem C02_reader_woken : forall w ops L,
-  1 <= w -> RxWake.waiter (RxWakeProofs.reach w ops) = Some L ->
-  let s := RxWakeProofs.reach w ops in
-  RxWake.rst s = 0 /\ RxWake.ended s <> 2 /\
-  RxWake.blen s < N.max 1 (N.min L (w / 2)) /\
-  RxWake.sent s < RxWake.cons s + w.
-Proof. exact RxWakeProofs.reader_woken. Qed.
+(* whichever frame completes the stream -- the frame carrying the FIN, or the gap filler that arrives
+   after the FIN -- wakes the reader, however large its low watermark *)
+Theorem C02_reader_woken_when_complete : forall s n fin,
+  RxWake.complete s = false -> RxWake.complete (RxWake.rx_data s n fin) = true ->
+  RxWake.waiter (RxWake.rx_data s n fin) = None.
+Proof. exact RxWakeProofs.reader_woken_when_complete. Qed.
 
-Theorem C02_reader_woken_by_fin_or_reset : forall s n,
-  RxWake.ended s = 0 ->
-  RxWake.waiter (RxWake.rx_data s n true) = None /\ RxWake.waiter (RxWake.rx_reset s) = None.
-Proof. exact RxWakeProofs.reader_woken_by_fin_or_reset. Qed.
+Theorem C02_reader_woken_when_complete_ooo : forall s g n fin,
+  RxWake.complete s = false -> RxWake.complete (RxWake.rx_ooo s g n fin) = true ->
+  RxWake.waiter (RxWake.rx_ooo s g n fin) = None.
+Proof. exact RxWakeProofs.reader_woken_when_complete_ooo. Qed.
 
-(* "as soon as": the frame that brings the buffer to the threshold wakes the reader *)
-Theorem C02_reader_woken_at_threshold : forall s n L,
-  RxWake.ended s = 0 -> RxWake.waiter s = Some L -> 0 < N.min n (RxWake.room s) ->
-  let len := RxWake.sent s + N.min n (RxWake.room s) - RxWake.cons s in
-  1 <= len -> N.min L (RxWake.fc_watermark s) <= len ->
-  RxWake.waiter (RxWake.rx_data s n false) = None /\
-  RxWake.wakes (RxWake.rx_data s n false) = RxWake.wakes s + 1.
+Theorem C02_reader_woken_by_reset : forall s, RxWake.ended s = 0 -> RxWake.waiter (RxWake.rx_reset s) = None.
+Proof. exact RxWakeProofs.reader_woken_by_reset. Qed.
+
+(* "as soon as": an effective data frame after which at least one byte and at least
+   min(remaining low watermark, flow-control watermark w/2) are buffered wakes the parked reader *)
+Theorem C02_reader_woken_at_threshold : forall s n fin L,
+  RxWake.waiter s = Some L -> RxWake.rx_data s n fin <> s ->
+  let s' := RxWake.rx_data s n fin in
+  1 <= RxWake.blen s' -> N.min L (RxWake.fc_watermark s') <= RxWake.blen s' ->
+  RxWake.waiter s' = None.
 Proof. exact RxWakeProofs.reader_woken_at_threshold. Qed.
+
+(* non-vacuity: FIN segment first, gap filler second: the filler wakes the reader *)
+Theorem C02_reader_woken_by_gap_filler :
+  let s1 := RxWakeProofs.reach 100 [RxWake.RData 3 false; RxWake.RRead 20 20; RxWake.ROoo 2 5 true] in
+  let s2 := RxWakeProofs.reach 100 [RxWake.RData 3 false; RxWake.RRead 20 20; RxWake.ROoo 2 5 true; RxWake.RData 2 false] in
+  RxWake.waiter s1 = Some 20 /\ RxWake.wakes s1 = 0 /\ RxWake.complete s1 = false /\
+  RxWake.waiter s2 = None /\ RxWake.wakes s2 = 1 /\ RxWake.complete s2 = true /\ RxWake.blen s2 = 10.
+Proof. exact RxWakeProofs.reader_woken_by_gap_filler. Qed.
 
 (* The stronger statement (a parked reader always has a wake coming while the stream can still
    deliver, and is never parked once it cannot) is FALSE of the faithful model and of the
-   implementation: a request polled AFTER the FIN has been fully received with a low watermark above
-   the remaining bytes is parked (will_wake, status Finishing) and nothing can wake it.  The
-   executable judge rejects exactly this case (KNOWN_FINDINGS class
-   finished_stream_low_watermark_reader_parked); for that reason there is no unconditional
-   "judge accepts the model" theorem for the rxwake component -- correspondence and the judge run on
-   every generated case, the generator leaves this class out until it is listed as known. *)
+   implementation: a request polled AFTER the stream has been completely received with a low
+   watermark above the remaining bytes is parked (will_wake, status Finishing) and nothing can wake
+   it (KNOWN_FINDINGS class finished_stream_low_watermark_reader_parked); hence no unconditional
+   "judge accepts the model" theorem for the rxwake component. *)
 Theorem C02_reader_parked_on_finished_stream_refuted :
   let s := RxWakeProofs.reach 100 [RxWake.RData 10 true; RxWake.RRead 20 20] in
   RxWake.waiter s = Some 20 /\ RxWake.ended s = 1 /\ RxWake.blen s = 10 /\
@@ -358,7 +366,9 @@ Print Assumptions C02_eventual_delivery_instance.
 Print Assumptions C02_interest_reported_refuted.
 Print Assumptions C02_blocked_signalled.
 Print Assumptions C02_blackhole_closes_both.
-Print Assumptions C02_reader_woken.
-Print Assumptions C02_reader_woken_by_fin_or_reset.
+Print Assumptions C02_reader_woken_when_complete.
+Print Assumptions C02_reader_woken_when_complete_ooo.
+Print Assumptions C02_reader_woken_by_reset.
 Print Assumptions C02_reader_woken_at_threshold.
+Print Assumptions C02_reader_woken_by_gap_filler.
 Print Assumptions C02_reader_parked_on_finished_stream_refuted.
